@@ -13,18 +13,23 @@ EXTENDS Cache, Json
 VARIABLES hist, ip, ph
 mcvars == <<W, obs, hist, ip, ph>>
 
-(* pattern modes: a history is  query [relate] edit query [query]  -- ph counts the phases *)
+(* pattern modes: a history is  query [relate] edit query [query]  or  query edit clone query [query]
+   -- ph is the state of that automaton *)
 Pat == PatC \cup PatM
 QOps == {"tq", "sq"}
-ROps == {"tclone", "sclone", "sadd", "sset"}
-EOps == {"tmut", "txo", "smut", "sxo", "sadd", "sdel", "sset"}
+ROps == {"tclone", "sclone", "sadd", "sadds", "sset"}
+EOps == {"tmut", "txo", "smut", "sxo", "sadd", "sadds", "sdel", "sset"}
+COps == {"tclone", "sclone"}
 PhaseNext(p, op) ==
-  CASE p = 0 -> IF op \in QOps THEN {1} ELSE {}
+  CASE p = 0 -> IF op \in QOps THEN {1} ELSE {}                         \* first query
     [] p = 1 -> (IF op \in ROps THEN {2} ELSE {}) \cup (IF op \in EOps THEN {3} ELSE {})
-    [] p = 2 -> IF op \in EOps THEN {3} ELSE {}
-    [] p = 3 -> IF op \in QOps THEN {4} ELSE {}
-    [] p = 4 -> IF op \in QOps THEN {5} ELSE {}
+    [] p = 2 -> IF op \in EOps THEN {7} ELSE {}                         \* edit after relate
+    [] p = 3 -> (IF op \in QOps THEN {4} ELSE {}) \cup (IF op \in COps THEN {6} ELSE {})
+    [] p = 6 -> IF op \in QOps THEN {4} ELSE {}                         \* clone after edit
+    [] p = 7 -> IF op \in QOps THEN {4} ELSE {}
+    [] p = 4 -> IF op \in QOps THEN {5} ELSE {}                         \* second query, other chromosome
     [] OTHER -> {}
+PhaseFinal == {4, 5}
 
 MCInit == /\ \E mode \in Modes : \E pr \in InitParams(mode) :
                /\ W = InitWorld(mode, pr[1], pr[2], pr[3])
@@ -49,6 +54,6 @@ MCSpec == MCInit /\ [][MCNext]_mcvars
 LastAct == IF hist = <<>> THEN A("", 0, 0, 0, 0, "", "") ELSE hist[Len(hist)]
 View == <<W, obs, LastAct, ip, ph, IF W.mode \in Pat THEN hist ELSE <<>>>>
 
-Emit == (hist # <<>> /\ IsQuery(LastAct) /\ (W.mode \in Pat => ph >= 4)) =>
+Emit == (hist # <<>> /\ IsQuery(LastAct) /\ (W.mode \in Pat => ph \in PhaseFinal)) =>
           PrintT(<<"HIST", ToJson([ip |-> ip, hist |-> hist, pred |-> obs])>>)
 =============================================================================
